@@ -24,6 +24,14 @@
 //	[15]           reg.Copy()                                   obs [shared, same, dump...]
 //
 // dump = [nkeys, (key, nvals, vals...)...] with keys sorted bytewise.
+//
+// Case-colliding keys (finding F-C28-case-colliding-keys): when the MD stored in the
+// context has keys that differ only in case, the result of a read depends on the order in
+// which the Go runtime ranges over the map, which is random per call.  The model ranges in
+// the literal order of the op.  To keep exec a function of (cfg, ops), a read on such a
+// context is repeated (at most vMDApiTries times) until the runtime happens to range over
+// the colliding entries in literal order (recognised by the values returned for the
+// colliding key); reads on contexts without colliding keys are never repeated.
 // shared = 1 if a value slice of the result starts at the same address as a stored
 // slice; same = 1 if, after the result has been destructively mutated (every element
 // overwritten, one appended, a key added, a key deleted), reading again gives the
@@ -217,9 +225,110 @@ func vMDApiCollides(md metadata.MD) bool {
 	return false
 }
 
+
+const vMDApiTries = 400
+
+type vMDApiLit struct {
+	k  string
+	vs []string
+}
+
+// vMDApiOrdered re-reads an MD literal keeping the entry order of the op.
+func vMDApiOrdered(w []int64) []vMDApiLit {
+	if len(w) == 0 || w[0] < 0 {
+		return nil
+	}
+	n := int(w[0])
+	w = w[1:]
+	var out []vMDApiLit
+	for i := 0; i < n; i++ {
+		k, r, ok := vMDApiStr(w)
+		if !ok {
+			return nil
+		}
+		vs, r2, ok := vMDApiStrs(r)
+		if !ok {
+			return nil
+		}
+		out = append(out, vMDApiLit{k, vs})
+		w = r2
+	}
+	return out
+}
+
+func vMDApiStrsEq(a, b []string) bool {
+	if len(a) != len(b) {
+		return false
+	}
+	for i := range a {
+		if a[i] != b[i] {
+			return false
+		}
+	}
+	return true
+}
+
+func vMDApiAddedFor(added []string, lk string) []string {
+	var out []string
+	for i := 0; i+1 < len(added); i += 2 {
+		if vMDApiLower(added[i]) == lk {
+			out = append(out, added[i+1])
+		}
+	}
+	return out
+}
+
+// vMDApiFromCanon: is r what FromX returns when the map is ranged in literal order, as
+// far as the colliding keys are concerned (the last literal entry of a group wins)?
+func vMDApiFromCanon(r metadata.MD, lit []vMDApiLit, added []string) bool {
+	cnt := map[string]int{}
+	last := map[string][]string{}
+	for _, e := range lit {
+		lk := vMDApiLower(e.k)
+		cnt[lk]++
+		last[lk] = e.vs
+	}
+	for lk, c := range cnt {
+		if c < 2 {
+			continue
+		}
+		want := append(append([]string{}, last[lk]...), vMDApiAddedFor(added, lk)...)
+		if !vMDApiStrsEq(r[lk], want) {
+			return false
+		}
+	}
+	return true
+}
+
+// vMDApiValueCanon: is v what ValueFromX(key) returns when the map is ranged in literal
+// order?  exact = the key looked up verbatim first (lower(key) for outgoing, key for incoming).
+func vMDApiValueCanon(v []string, lit []vMDApiLit, added []string, exact, key string) bool {
+	lk := vMDApiLower(key)
+	n := 0
+	var first []string
+	for _, e := range lit {
+		if e.k == exact {
+			return true // exact match: no ranging involved
+		}
+		if vMDApiLower(e.k) == lk {
+			if n == 0 {
+				first = e.vs
+			}
+			n++
+		}
+	}
+	if n < 2 {
+		return true
+	}
+	want := append(append([]string{}, first...), vMDApiAddedFor(added, lk)...)
+	return vMDApiStrsEq(v, want)
+}
+
 func vMDApiExec(cfg []int64, ops [][]int64) ([][]int64, bool, []string) {
 	ctx := context.Background()
 	var curOut, curIn metadata.MD
+	var litOut, litIn []vMDApiLit
+	var addedOut []string
 	reg := metadata.MD{}
 	var obs [][]int64
 	upperBase, appended, nt := false, false, false
@@ -235,6 +344,8 @@ func vMDApiExec(cfg []int64, ops [][]int64) ([][]int64, bool, []string) {
 			if md, r, ok := vMDApiMD(op[1:]); ok && len(r) == 0 {
 				ctx = metadata.NewOutgoingContext(ctx, md)
 				curOut = md
+				litOut = vMDApiOrdered(op[1:])
+				addedOut = nil
 				upperBase = vMDApiHasUpper(md)
 				appended = false
 				if vMDApiCollides(md) {
@@ -244,6 +355,7 @@ func vMDApiExec(cfg []int64, ops [][]int64) ([][]int64, bool, []string) {
 		case 2:
 			if kv, r, ok := vMDApiKVs(op[1:]); ok && len(r) == 0 {
 				ctx = metadata.AppendToOutgoingContext(ctx, kv...)
+				addedOut = append(addedOut, kv...)
 				if len(kv) > 0 {
 					appended = true
 				}
@@ -254,10 +366,16 @@ func vMDApiExec(cfg []int64, ops [][]int64) ([][]int64, bool, []string) {
 				o = []int64{0}
 				break
 			}
+			for try := 0; try < vMDApiTries && !vMDApiFromCanon(r1, litOut, addedOut); try++ {
+				r1, _ = metadata.FromOutgoingContext(ctx)
+			}
 			d1 := vMDApiDump(r1)
 			sh := vMDApiShared(r1, curOut)
 			vMDApiMutate(r1)
 			r2, _ := metadata.FromOutgoingContext(ctx)
+			for try := 0; try < vMDApiTries && !vMDApiFromCanon(r2, litOut, addedOut); try++ {
+				r2, _ = metadata.FromOutgoingContext(ctx)
+			}
 			o = vCat([]int64{1, vB(sh), vB(vMDApiEq(d1, vMDApiDump(r2)))}, d1)
 			if upperBase && appended {
 				nt = true
@@ -266,6 +384,9 @@ func vMDApiExec(cfg []int64, ops [][]int64) ([][]int64, bool, []string) {
 		case 4:
 			if k, r, ok := vMDApiStr(op[1:]); ok && len(r) == 0 {
 				v := metadata.ValueFromOutgoingContext(ctx, k)
+				for try := 0; try < vMDApiTries && !vMDApiValueCanon(v, litOut, addedOut, vMDApiLower(k), k); try++ {
+					v = metadata.ValueFromOutgoingContext(ctx, k)
+				}
 				o = vMDApiPutStrs(v)
 				vMDApiMutateSlice(v)
 				if upperBase && appended && len(v) > 1 {
@@ -276,6 +397,7 @@ func vMDApiExec(cfg []int64, ops [][]int64) ([][]int64, bool, []string) {
 			if md, r, ok := vMDApiMD(op[1:]); ok && len(r) == 0 {
 				ctx = metadata.NewIncomingContext(ctx, md)
 				curIn = md
+				litIn = vMDApiOrdered(op[1:])
 				if vMDApiCollides(md) {
 					tagset["collision-in"] = true
 				}
@@ -286,14 +408,23 @@ func vMDApiExec(cfg []int64, ops [][]int64) ([][]int64, bool, []string) {
 				o = []int64{0}
 				break
 			}
+			for try := 0; try < vMDApiTries && !vMDApiFromCanon(r1, litIn, nil); try++ {
+				r1, _ = metadata.FromIncomingContext(ctx)
+			}
 			d1 := vMDApiDump(r1)
 			sh := vMDApiShared(r1, curIn)
 			vMDApiMutate(r1)
 			r2, _ := metadata.FromIncomingContext(ctx)
+			for try := 0; try < vMDApiTries && !vMDApiFromCanon(r2, litIn, nil); try++ {
+				r2, _ = metadata.FromIncomingContext(ctx)
+			}
 			o = vCat([]int64{1, vB(sh), vB(vMDApiEq(d1, vMDApiDump(r2)))}, d1)
 		case 7:
 			if k, r, ok := vMDApiStr(op[1:]); ok && len(r) == 0 {
 				v := metadata.ValueFromIncomingContext(ctx, k)
+				for try := 0; try < vMDApiTries && !vMDApiValueCanon(v, litIn, nil, k, k); try++ {
+					v = metadata.ValueFromIncomingContext(ctx, k)
+				}
 				o = vMDApiPutStrs(v)
 				vMDApiMutateSlice(v)
 			}
